@@ -299,3 +299,52 @@ func ZZ_C08_Variable(max, L, frag int) {
 	}
 	vrt.Reach("c08-variable-done")
 }
+
+// zzPanicOnce is a downstream handler context whose first delivery fails (a handler behind the codec panics while
+// it handles the packet, having read only part of it); later deliveries are recorded.
+type zzPanicOnce struct {
+	zzCtx
+	failed bool
+}
+
+func (c *zzPanicOnce) HandleRead(message netty.Message) {
+	if !c.failed {
+		c.failed = true
+		if r, ok := message.(interface{ Read([]byte) (int, error) }); ok {
+			var one [1]byte
+			r.Read(one[:])
+		}
+		panic(zzErrBoom)
+	}
+	c.in = append(c.in, message)
+}
+
+// ZZ_C08_Packet: the packet codec keeps one read buffer for all packets of its connection. A packet whose delivery
+// fails (kind 0: the handler behind the codec panics after reading part of it; kind 1: the transport fails in the
+// middle of the packet) leaves nothing behind: the next packet is delivered exactly - no stale prefix.
+func ZZ_C08_Packet(kind int) {
+	dec := PacketCodec(16)
+	n1 := vrt.Choose(3) + 1
+	n2 := vrt.Choose(3) + 1
+	p1 := vrt.Bytes(n1)
+	p2 := vrt.Bytes(n2)
+	ctx := &zzPanicOnce{}
+	if kind == 1 {
+		ctx.failed = true // no handler failure in this variant
+	}
+	src1 := &zzSrc{data: p1}
+	if kind == 1 {
+		src1.endErr = zzErrBoom // the packet read ends with a transport error instead of io.EOF
+	}
+	pv := vrt.Panics(func() { dec.HandleRead(ctx, src1) })
+	vrt.Assert(pv != nil && !vrt.IsRuntimeError(pv), "exception-is-not-a-runtime-fault")
+	vrt.Assert(len(ctx.in) == 0, "failed-packet-nothing-delivered")
+	pv = vrt.Panics(func() { dec.HandleRead(ctx, &zzSrc{data: p2}) })
+	vrt.Assert(pv == nil && len(ctx.in) == 1, "fresh-frame-after-a-rejected-one-is-delivered")
+	if pv == nil && len(ctx.in) == 1 {
+		got, ok := zzDrain(ctx.in[0], 16)
+		vrt.Assert(ok, "frame-readable")
+		zzSameBytes(got, p2, "fresh-frame-after-a-rejected-one")
+	}
+	vrt.Reach("c08-packet-done")
+}
